@@ -549,6 +549,8 @@ func gen(r *hx.Rand, n int, tier string, emit func(string), st *hx.Stats) {
 	}
 }
 
+var stuck int
+
 func execCase(line string, st *hx.Stats) string {
 	f := strings.Fields(line)
 	if len(f) == 0 {
@@ -557,8 +559,15 @@ func execCase(line string, st *hx.Stats) string {
 	if f[0] == "search" {
 		return "n/a"
 	}
+	if f[0] == "pipe" && stuck >= 3 {
+		// three pipeline runs already hung or killed the helper: do not wait for more of them
+		return "skipped-after-timeouts"
+	}
 	out := callHelper(line)
 	if f[0] == "pipe" {
+		if strings.HasPrefix(out, "timeout") || strings.HasPrefix(out, "HELPER-DIED") {
+			stuck++
+		}
 		return out + " | " + helperNote
 	}
 	return out
